@@ -142,6 +142,11 @@ func (m *monC12) OnStep(r *Runner, st *Step) {
 				relErr = rmul(rquo(ratDec(a.TotalValidatorShares), vs), big.NewRat(4, 1_000_000_000_000_000_000))
 			}
 		}
+		// ... and of delegationShares/validator's delegator shares
+		if sh := ratDec(post.Dels[pk].Shares); sh.Sign() > 0 {
+			D := ratDec(decCoinsAmount(post.ValInfos[pk.Val].TotalDelegatorShares, pk.Denom))
+			relErr = radd(relErr, rmul(rquo(D, sh), big.NewRat(4, 1_000_000_000_000_000_000)))
+		}
 		for _, c := range ent[pk] {
 			fracBound[c.Denom] = radd(getR(fracBound, c.Denom), rmul(ratInt(c.Amount), relErr))
 			E[c.Denom] = radd(getR(E, c.Denom), ratInt(c.Amount))
